@@ -645,6 +645,9 @@ def build():
     C.opaque_info["Kwargs"] = kw_info
 
     C.finite_checks.append(common.native_demo_check(
+        "c13_mode_delay_added_while_stopping.py",
+        "a delay added to a mode's delay manager while the mode is stopping never fires once the mode has stopped"))
+    C.finite_checks.append(common.native_demo_check(
         "c13_stale_unpause_into_untimed_pause.py",
         "a timed pause followed by an untimed pause: the timer stays paused (no tick) until it is started again"))
     C.assume("A-ASYNCIO: the loop calls a live handle's callback exactly once, not before when[h]; cancel() "
@@ -662,5 +665,5 @@ def build_extra():
     c07 = C07.build()
     c07.pid = "C13b"
     c07.replay_pid = "C07"
-    c07.only_verify = ["Mode.stop", "Mode._control_event_handler"]
+    c07.only_verify = ["Mode.stop", "Mode._control_event_handler", "Mode._mode_stopped_callback"]
     return [c07]
